@@ -102,3 +102,13 @@ func genC10(c *ctx) {
 	c.add(&h.Event{K: "quiesce"})
 	c.add(&h.Event{K: "check", Check: &h.Check{Key: c.key()}})
 }
+
+func init() {
+	generators["C08"] = genC08
+}
+
+func genC08(c *ctx) {
+	c.modelProfile()
+	c.add(&h.Event{K: "quiesce"})
+	c.add(&h.Event{K: "check", Check: &h.Check{Key: c.key()}})
+}
